@@ -67,7 +67,9 @@ func checkC05(c *Ctx, e *Env) {
 	m, r := e1Handlers(c, e)
 	p := m.P
 	noteUndecided(c, m, r, "C05.E1")
-	ruleArith(c, e, "C05.ARITH", func(ep *EntryPoint) bool { return ep.Service == "basket" && (ep.Kind == "msg" || ep.Kind == "invariant") })
+	ruleArith(c, e, "C05.ARITH", func(ep *EntryPoint) bool {
+		return ep.Service == "basket" && (ep.Kind == "msg" || ep.Kind == "invariant")
+	})
 	nPaths := 0
 	for _, h := range r.Handlers {
 		touches := false
